@@ -98,7 +98,7 @@ NotationOK(m, sc, n) ==
     LET ip == IF sc >= 10 THEN 0 ELSE m \div Pow10(sc) IN
     CASE n \in {"point", "comma"}   -> sc # 3 \/ ip = 0        \* 0.125 / 0,125 cannot be a digit group
       [] n \in {"gcp", "gpc"}       -> ip >= 1000 /\ (sc > 0 \/ ip >= 1000000) /\ sc # 3
-      [] n \in {"gsc", "gsp"}       -> ip >= 1000 /\ sc # 3
+      [] n \in {"gsc", "gsp"}       -> ip >= 1000                \* blanks are the group marks: the one point/comma is the decimal mark
       [] n = "indian"               -> ip >= 100000 /\ sc # 3
       [] n \in {"trail", "trailc"}  -> sc = 0
       [] n = "exp"                  -> TRUE
@@ -288,7 +288,12 @@ Formats == <<
   [comm |-> 2, txt |-> "€1 000,000",     mark |-> ",", group |-> " ", places |-> 3],
   [comm |-> 6, txt |-> "1000.0000 AAPL", mark |-> ".", group |-> "",  places |-> 4],
   [comm |-> 4, txt |-> "1000 USD",       mark |-> ".", group |-> "",  places |-> 0],
-  [comm |-> 3, txt |-> "₽1.000,00000000", mark |-> ",", group |-> ".", places |-> 8] >>
+  [comm |-> 3, txt |-> "₽1.000,00000000", mark |-> ",", group |-> ".", places |-> 8],
+  [comm |-> 5, txt |-> "1 000,00 EUR",   mark |-> ",", group |-> " ", places |-> 2],
+  [comm |-> 4, txt |-> "1,000. USD",     mark |-> ".", group |-> ",", places |-> 0],
+  [comm |-> 2, txt |-> "€1.000,",        mark |-> ",", group |-> ".", places |-> 0],
+  [comm |-> 1, txt |-> "$1000.0",        mark |-> ".", group |-> "",  places |-> 1],
+  [comm |-> 6, txt |-> "1,000.000000 AAPL", mark |-> ".", group |-> ",", places |-> 6] >>
 
 IncludePaths == << "b.journal", "sub/c.journal", "*.journal", "sub/<->/*.journal" >>
 IncludePathsX == IncludePaths \o << "a.journal", "s.journal", "x.journal", "main.journal", "sub/d.journal" >>
